@@ -32,7 +32,7 @@ metric record next to it. Transliterated, and from where:
   `verdict`): `new_unit != self.unit_cfg` (own `PartialEq`: listen, my_asn, my_bgp_id; `self.unit_cfg` is the
   config the connection was accepted under) ⇒ `Disconnect(Reconfiguration)`, `break`, nothing counted (site
   `discmain`); else `get_exact(key matched at accept)`: present and different (`PartialEq for PeerConfig`:
-  remote_asn, hold_time) ⇒ `Disconnect(Reconfiguration)` without `break`, the loop ends on the next `tick`,
+  remote_asn, hold_time; since d309a16 also protocols and addpath, which every entry of a case has alike) ⇒ `Disconnect(Reconfiguration)` without `break`, the loop ends on the next `tick`,
   nothing counted (site `discpeer`); absent ⇒ `disconnect`, `Disconnect(Deconfigured)`, `break`. The root gate
   replaces its subscriber map before it tells the clones (`comms.rs:545`), so from a reconfiguration on every
   update counts as dropped until a downstream unit links again (`linked := false`; re-linking is not modelled).
